@@ -80,6 +80,10 @@ def generate(seed, idx, tier):
                       part_kinds=('pstr', 'pint', 'pbool')
                       if scheme == 'drill' else PART_KINDS,
                       part_prefix='dir' if scheme == 'drill' else 'p')
+    if scheme == 'drill':
+        # (a drill directory is named by the bare value: no empty text)
+        for v in shape['parts'].values():
+            v[1] = [x for x in v[1] if x != ''] or ['a']
     if scheme == 'drill' and not shape['parts']:
         scheme = 'hive'
     has_cat = any(c[1] == 'cat' for c in shape['cols'])
